@@ -6,6 +6,10 @@ Driver for C17.  Operations (one per line):
 * `st <ty> <a> <b>`        — ty ∈ i32 u32 i64 u64; every `strong_typedef` operator on operands a, b
                              (`ub` where the underlying operator is undefined: signed overflow)
 * `sts <ty> <a> <lo> <hi>` — digest of the `st` lines for b = lo .. hi
+* `stself <ty> <a>`        — every binary / assigning operator with the SAME object on both sides; `stselfs ty lo hi` digest
+* `stmem <ty> <a> <b>`     — members (non-const `get`, `no_init`, copy, move), `strong_typedef_map/_apply/_construct_cast`,
+                             `<<`, `>>`; `stmems ty a lo hi` digest over b
+                             (ty additionally i8 u8 i16 u16: integral promotion; binary / unary operators are ill-formed there)
 * `rel <type> <a> <b>`     — a, b values of the type as comma separated component lists (`-` = empty);
                              prints `== != < > <= >=` (`-` = not offered by the type), hash agreement, extras
 * `rels <type> <maxlen> <a>` — digest of `rel type a b` for every b of the type's domain
@@ -28,7 +32,11 @@ open Fcppt.Proto
 
 def tyOf : String → Option IntTy
   | "i32" => some .i32 | "u32" => some .u32 | "i64" => some .i64 | "u64" => some .u64
+  | "i8" => some .i8 | "u8" => some .u8 | "i16" => some .i16 | "u16" => some .u16
   | _ => none
+
+/-- narrower than `int`: only the assigning operators, `++`/`--`, comparisons, hash and type_iso are well-formed -/
+def narrow (t : IntTy) : Bool := t.bits < 32
 
 def showM (r : M Int) : String := match r with | .ok v => toString v | .error _ => "ub"
 def showST (r : M ST) : String := match r with | .ok v => toString v.get | .error _ => "ub"
@@ -41,18 +49,46 @@ def stLine (t : IntTy) (a b : Int) : String :=
   let e := ST.eq l r
   let hId : Int → Nat := fun x => x.toNat
   let heq := if e then b01 (ST.hash hId l == ST.hash hId r) else "-"
-  s!"add={showST (ST.add t l r)} sub={showST (ST.sub t l r)} mul={showST (ST.mul t l r)} neg={showST (ST.neg t l)}" ++
-  s!" and={(ST.band t l r).get} or={(ST.bor t l r).get} xor={(ST.bxor t l r).get} not={(ST.bnot t l).get}" ++
+  (if narrow t then "narrow" else
+    s!"add={showST (ST.add t l r)} sub={showST (ST.sub t l r)} mul={showST (ST.mul t l r)} neg={showST (ST.neg t l)}" ++
+    s!" and={(ST.band t l r).get} or={(ST.bor t l r).get} xor={(ST.bxor t l r).get} not={(ST.bnot t l).get}") ++
   s!" preinc={showPair (ST.preInc t l)} predec={showPair (ST.preDec t l)} postinc={showPair (ST.postInc t l)} postdec={showPair (ST.postDec t l)}" ++
   s!" addas={showPair (ST.addAssign t l r)} subas={showPair (ST.subAssign t l r)} mulas={showPair (ST.mulAssign t l r)}" ++
   s!" andas={showPair (pure (ST.andAssign t l r))} oras={showPair (pure (ST.orAssign t l r))} xoras={showPair (pure (ST.xorAssign t l r))}" ++
   s!" lt={b01 (ST.lt l r)} le={b01 (ST.le l r)} gt={b01 (ST.gt l r)} ge={b01 (ST.ge l r)} eq={b01 e} ne={b01 (ST.ne l r)}" ++
   s!" heq={heq} iso={ST.undecorate (ST.decorate a)}"
 
-def stsDigest (t : IntTy) (a lo hi : Int) : String :=
+/-- the same object on both sides: in the value model `x op x` is `op` applied to two equal values -/
+def stSelfLine (t : IntTy) (a : Int) : String :=
+  let x : ST := ⟨a⟩
+  let hId : Int → Nat := fun v => v.toNat
+  let e := ST.eq x x
+  (if narrow t then "narrow" else
+    s!"add={showST (ST.add t x x)} sub={showST (ST.sub t x x)} mul={showST (ST.mul t x x)}" ++
+    s!" and={(ST.band t x x).get} or={(ST.bor t x x).get} xor={(ST.bxor t x x).get}") ++
+  s!" addas={showPair (ST.addAssign t x x)} subas={showPair (ST.subAssign t x x)} mulas={showPair (ST.mulAssign t x x)}" ++
+  s!" andas={showPair (pure (ST.andAssign t x x))} oras={showPair (pure (ST.orAssign t x x))} xoras={showPair (pure (ST.xorAssign t x x))}" ++
+  s!" asg={showPair (pure (ST.assign x x))} mvasg={showPair (pure (ST.assign x x))}" ++
+  s!" lt={b01 (ST.lt x x)} le={b01 (ST.le x x)} gt={b01 (ST.gt x x)} ge={b01 (ST.ge x x)} eq={b01 e} ne={b01 (ST.ne x x)}" ++
+  s!" heq={if e then b01 (ST.hash hId x == ST.hash hId x) else "-"}"
+
+/-- members of the class and the helper functions `strong_typedef_map / _apply / _construct_cast`, `<<`, `>>` -/
+def stMemLine (t : IntTy) (a b : Int) : String :=
+  let x : ST := ⟨a⟩
+  let y : ST := ⟨b⟩
+  let m := ST.map (fun v => t.bxor v b) x
+  let ap := ST.apply2 (fun u v => t.band u (t.bnot v)) x y
+  s!"set={(ST.set x b).get} cget={x.get} noinit={(ST.set x a).get}/{(ST.assign x y).1.get}" ++
+  s!" copy={x.get}/{(ST.set x b).get} cpas={(ST.assign y x).1.get}/{(ST.set x b).get} mv={(ST.assign y x).1.get} size=1" ++
+  s!" map={m.get}/{m.get} apply={ap.get}/{ap.get} apply1={(ST.map t.bnot x).get}" ++
+  s!" applyself={(ST.apply2 (fun u v => t.band u (t.bnot v)) x x).get} ccast={(ST.constructCast t.conv b).get} out=1 in=1"
+
+def digestRange (lo hi : Int) (f : Int → String) : String :=
   let cnt := (hi - lo + 1).toNat
-  let h := (List.range cnt).foldl (fun h k => fnv h (stLine t a (lo + (k : Nat)))) fnvInit
+  let h := (List.range cnt).foldl (fun h k => fnv h (f (lo + (k : Nat)))) fnvInit
   "D " ++ hex64 h
+
+def stsDigest (t : IntTy) (a lo hi : Int) : String := digestRange lo hi (stLine t a)
 
 /-! ### comparison of the composite types -/
 
@@ -368,6 +404,24 @@ def handle (toks : List String) : String :=
     | some t, some a, some lo, some hi =>
       if t.inRange a && t.inRange lo && t.inRange hi && lo ≤ hi then stsDigest t a lo hi else "bad-op"
     | _, _, _, _ => "bad-op"
+  | ["stmem", ty, a, b] =>
+    match tyOf ty, a.toInt?, b.toInt? with
+    | some t, some a, some b => if t.inRange a && t.inRange b then stMemLine t a b else "bad-op"
+    | _, _, _ => "bad-op"
+  | ["stmems", ty, a, lo, hi] =>
+    match tyOf ty, a.toInt?, lo.toInt?, hi.toInt? with
+    | some t, some a, some lo, some hi =>
+      if t.inRange a && t.inRange lo && t.inRange hi && lo ≤ hi then digestRange lo hi (stMemLine t a) else "bad-op"
+    | _, _, _, _ => "bad-op"
+  | ["stself", ty, a] =>
+    match tyOf ty, a.toInt? with
+    | some t, some a => if t.inRange a then stSelfLine t a else "bad-op"
+    | _, _ => "bad-op"
+  | ["stselfs", ty, lo, hi] =>
+    match tyOf ty, lo.toInt?, hi.toInt? with
+    | some t, some lo, some hi =>
+      if t.inRange lo && t.inRange hi && lo ≤ hi then digestRange lo hi (stSelfLine t) else "bad-op"
+    | _, _, _ => "bad-op"
   | ["rel", ty, a, b] =>
     match tyName ty, parseIntList a, parseIntList b with
     | some ty, some a, some b => relLine ty a b
